@@ -70,7 +70,86 @@ def ExecsSim (l l' : List Exec) : Prop :=
   l'.length = l.length ∧
   ∀ ex' ∈ l', ∃ ex ∈ l, ex'.rid = ex.rid ∧ ex'.id = ex.id ∧ ex'.deadline = ex.deadline
 
-structure TInv (now : Nat) (s : St) : Prop where
+/-- the longest timeout a deadline timer is armed with (`MAX_DEADLINE_TIMEOUT`), in nanoseconds -/
+def clampNs : Nat := Gen.serverTimerClampSecs * 1000000000
+
+/-- **The clamp has run out.**  A request read at clock `t0` with deadline `d` more than the clamp
+away had its timer armed with the clamped timeout, and that timeout has elapsed by `t`
+(`t0 + clamp ≤ t`, although possibly `t < d`). -/
+def Clamped (t0 d t : Nat) : Prop := Gen.serverTimerClampSecs ≠ 0 ∧ t0 + clampNs < d ∧ t0 + clampNs ≤ t
+
+theorem Clamped.mono {t0 d t t' : Nat} (h : Clamped t0 d t) (hle : t ≤ t') : Clamped t0 d t' :=
+  ⟨h.1, h.2.1, Nat.le_trans h.2.2 hle⟩
+
+/-- the armed timeout is the requested one, or (only if the source clamps) the clamp, which is shorter -/
+theorem clampTimeout_cases (t : Nat) :
+    clampTimeout t = t ∨ (Gen.serverTimerClampSecs ≠ 0 ∧ clampNs < t ∧ clampTimeout t = clampNs) := by
+  unfold clampTimeout clampNs
+  generalize Gen.serverTimerClampSecs = k
+  by_cases hk : k = 0
+  · left; simp [hk]
+  · have : (k == 0) = false := by simpa using hk
+    rw [this]
+    simp only [Bool.false_eq_true, if_false]
+    by_cases hle : t ≤ k * 1000000000
+    · left; exact Nat.min_eq_left hle
+    · right; exact ⟨hk, by omega, Nat.min_eq_right (by omega)⟩
+
+theorem clampTimeout_le (hf : Gen.serverTimerClampSecs ≠ 0) (t : Nat) : clampTimeout t ≤ clampNs := by
+  rcases clampTimeout_cases t with h | ⟨_, _, h⟩
+  · unfold clampTimeout clampNs at *
+    have : (Gen.serverTimerClampSecs == 0) = false := by simpa using hf
+    rw [this]; exact Nat.min_le_right _ _
+  · rw [h]; exact Nat.le_refl _
+
+/-- The server clamps its deadline timers and the clamp fits the `DelayQueue` range with `2^35` ms to
+spare. -/
+def ClampFits : Prop :=
+  Gen.serverTimerClampSecs ≠ 0 ∧ Gen.serverTimerClampSecs * 1000 + 2 ^ 35 + 1 ≤ delayQMaxMs
+
+/-- the clock (ns) before which the `DelayQueue::insert` range check cannot fail: `2^35` ms -/
+def panicFreeNs : Nat := 2 ^ 35 * nsPerMs
+
+/-- when `DelayQueue::insert` panics: the timer lies beyond the wheel's range -/
+theorem DelayQ.insert_panic_cond {q q' : DelayQ} {now to v : Nat} {w : Bool}
+    (h : q.insert now to v = (q', .panic, w)) :
+    max (ceilMs (now + to)) q.wheelElapsed - q.wheelElapsed > delayQMaxMs := by
+  unfold DelayQ.insert at h
+  simp only at h
+  split at h
+  · next hp => simp only [Bool.and_eq_true, decide_eq_true_eq] at hp; exact hp.2
+  · by_cases hw : max (ceilMs (now + to)) q.wheelElapsed ≤ q.wheelElapsed
+    · simp only [hw, if_true] at h
+      split at h <;> split at h <;>
+      · simp only [Prod.mk.injEq, reduceCtorEq, false_and, and_false] at h
+    · simp only [hw, if_false] at h
+      split at h <;> split at h <;>
+      · simp only [Prod.mk.injEq, reduceCtorEq, false_and, and_false] at h
+
+/-- The `DelayQueue::insert` range check cannot fail before `panicFreeNs` when the armed timeout is
+clamped and the clamp fits the queue's range:
+`when - wheelElapsed ≤ ceilMs (now + clampNs) ≤ now_ms + clamp_ms + 1 ≤ 2^36 - 1`. -/
+theorem insert_panic_late (hf : ClampFits) (q : DelayQ) (now t val : Nat)
+    (h : (q.insert now (clampTimeout t) val).2.1 = .panic) : panicFreeNs ≤ now := by
+  have ht := clampTimeout_le hf.1 t
+  have h2 := hf.2
+  rcases hq : q.insert now (clampTimeout t) val with ⟨q', r, w⟩
+  rw [hq] at h
+  simp only at h
+  subst h
+  have hc2 := DelayQ.insert_panic_cond hq
+  unfold ceilMs nsPerMs at hc2
+  unfold panicFreeNs nsPerMs
+  unfold clampNs at ht
+  unfold delayQMaxMs at hc2 h2
+  generalize clampTimeout t = T at ht hc2
+  generalize Gen.serverTimerClampSecs = S at ht h2
+  omega
+
+/-- the clock at which each execution (by rid) was created; not-yet-created rids carry the new clock -/
+def reborn (born : Nat → Nat) (n t : Nat) : Nat → Nat := fun rid => if rid < n then born rid else t
+
+structure TInv (now : Nat) (born : Nat → Nat) (s : St) : Prop where
   wf : DelayQ.KeysOk s.timers
   sound : DelayQ.Sound s.timers now
   ids : (s.inflight.map (·.id)).Nodup
@@ -78,27 +157,38 @@ structure TInv (now : Nat) (s : St) : Prop where
   bwd : ∀ c ∈ s.timers.cores, ∃ en ∈ s.inflight, en.timerKey = c.1 ∧ en.id = c.2.1
   ridLt : ∀ en ∈ s.inflight, en.rid < s.execs.length
   execRid : ∀ ex ∈ s.execs, ex.rid < s.execs.length
+  /-- a rid not handed out yet will be created at the current clock -/
+  fresh : ∀ rid, s.execs.length ≤ rid → born rid = now
+  /-- the timer of a tracked request fires no earlier than its deadline — or than the clamp -/
   dl : ∀ en ∈ s.inflight, ∀ c ∈ s.timers.cores, c.1 = en.timerKey → ∀ ex ∈ s.execs, ex.rid = en.rid →
-    ex.deadline ≤ c.2.2 * nsPerMs ∧ ex.id = en.id
+    (ex.deadline ≤ c.2.2 * nsPerMs ∨ Clamped (born ex.rid) ex.deadline (c.2.2 * nsPerMs)) ∧ ex.id = en.id
 
-theorem TInv.mono {now now' : Nat} {s : St} (h : TInv now s) (hle : now ≤ now') : TInv now' s :=
-  { h with sound := h.sound.mono hle }
+/-- the clock moves on: rids not handed out yet are re-dated -/
+theorem TInv.mono {now now' : Nat} {born : Nat → Nat} {s : St} (h : TInv now born s) (hle : now ≤ now') :
+    TInv now' (reborn born s.execs.length now') s := by
+  refine ⟨h.wf, h.sound.mono hle, h.ids, h.fwd, h.bwd, h.ridLt, h.execRid, ?_, ?_⟩
+  · intro rid hr; unfold reborn; rw [if_neg (by omega)]
+  · intro en hen c hc hk ex hex hr
+    have : reborn born s.execs.length now' ex.rid = born ex.rid := by
+      unfold reborn; rw [if_pos (h.execRid ex hex)]
+    rw [this]; exact h.dl en hen c hc hk ex hex hr
 
 /-- `TInv` only looks at `inflight`, `timers`, `execs` (up to `ExecsSim`). -/
-theorem TInv.of_sim {now : Nat} {s s' : St} (h : TInv now s) (hi : s'.inflight = s.inflight) (ht : s'.timers = s.timers)
-    (he : ExecsSim s.execs s'.execs) : TInv now s' := by
-  refine ⟨ht ▸ h.wf, ht ▸ h.sound, hi ▸ h.ids, ?_, ?_, ?_, ?_, ?_⟩
+theorem TInv.of_sim {now : Nat} {born : Nat → Nat} {s s' : St} (h : TInv now born s) (hi : s'.inflight = s.inflight) (ht : s'.timers = s.timers)
+    (he : ExecsSim s.execs s'.execs) : TInv now born s' := by
+  refine ⟨ht ▸ h.wf, ht ▸ h.sound, hi ▸ h.ids, ?_, ?_, ?_, ?_, ?_, ?_⟩
   · rw [hi, ht]; exact h.fwd
   · rw [hi, ht]; exact h.bwd
   · rw [hi, he.1]; exact h.ridLt
   · intro ex' hex'
     obtain ⟨ex, hex, hr, _, _⟩ := he.2 ex' hex'
     rw [he.1, hr]; exact h.execRid ex hex
+  · rw [he.1]; exact h.fresh
   · rw [hi, ht]
     intro en hen c hc hk ex' hex' hr'
     obtain ⟨ex, hex, hr, hid, hd⟩ := he.2 ex' hex'
     have := h.dl en hen c hc hk ex hex (hr ▸ hr')
-    rw [hid, hd]; exact this
+    rw [hid, hd, hr]; exact this
 
 theorem ExecsSim.refl (l : List Exec) : ExecsSim l l := ⟨rfl, fun ex h => ⟨ex, h, rfl, rfl, rfl⟩⟩
 
@@ -121,13 +211,13 @@ theorem updExec_sim (s : St) (r : Nat) (f : Exec → Exec)
   exact ExecsSim.map _ _ (fun e => by split; exact hf e; exact ⟨rfl, rfl, rfl⟩)
 
 /-- removing one tracked entry (all entries with its id) together with its timer -/
-theorem TInv.removeCore {now : Nat} {s s' : St} (h : TInv now s) {en : SEntry} (hen : en ∈ s.inflight)
+theorem TInv.removeCore {now : Nat} {born : Nat → Nat} {s s' : St} (h : TInv now born s) {en : SEntry} (hen : en ∈ s.inflight)
     (hwf : DelayQ.KeysOk s'.timers) (hsound : DelayQ.Sound s'.timers now)
     (hc : ∀ c, c ∈ s'.timers.cores ↔ c ∈ s.timers.cores ∧ c.1 ≠ en.timerKey)
-    (hi : s'.inflight = s.inflight.filter (·.id != en.id)) (he : ExecsSim s.execs s'.execs) : TInv now s' := by
+    (hi : s'.inflight = s.inflight.filter (·.id != en.id)) (he : ExecsSim s.execs s'.execs) : TInv now born s' := by
   have hmem : ∀ e, e ∈ s'.inflight ↔ e ∈ s.inflight ∧ e.id ≠ en.id := by
     intro e; rw [hi]; simp
-  refine ⟨hwf, hsound, ?_, ?_, ?_, ?_, ?_, ?_⟩
+  refine ⟨hwf, hsound, ?_, ?_, ?_, ?_, ?_, by rw [he.1]; exact h.fresh, ?_⟩
   · rw [hi]
     exact List.Nodup.sublist (List.Sublist.map _ List.filter_sublist) h.ids
   · intro e he'
@@ -153,10 +243,10 @@ theorem TInv.removeCore {now : Nat} {s s' : St} (h : TInv now s) {en : SEntry} (
   · intro e he' c hcm hk ex' hex' hr'
     obtain ⟨ex, hex, hr, hid, hd⟩ := he.2 ex' hex'
     have := h.dl e ((hmem e).mp he').1 c ((hc c).mp hcm).1 hk ex hex (hr ▸ hr')
-    rw [hid, hd]; exact this
+    rw [hid, hd, hr]; exact this
 
 /-- the timer of a tracked entry is in the queue, so `removeTimer` cannot fail -/
-theorem TInv.remove_some {now : Nat} {s : St} (h : TInv now s) {en : SEntry} (hen : en ∈ s.inflight) :
+theorem TInv.remove_some {now : Nat} {born : Nat → Nat} {s : St} (h : TInv now born s) {en : SEntry} (hen : en ∈ s.inflight) :
     ∃ q' w, s.timers.remove en.timerKey = some (q', w) := by
   cases hr : s.timers.remove en.timerKey with
   | some p => exact ⟨p.1, p.2, rfl⟩
@@ -165,7 +255,7 @@ theorem TInv.remove_some {now : Nat} {s : St} (h : TInv now s) {en : SEntry} (he
     obtain ⟨c, hc, hk, _⟩ := h.fwd en hen
     exact absurd ((DelayQ.mem_keys_iff _ _).mpr ⟨c, hc, hk⟩) this
 
-theorem TInv.removeReq {now : Nat} {s : St} (h : TInv now s) (id : Nat) : TInv now (removeRequest s id).1 := by
+theorem TInv.removeReq {now : Nat} {born : Nat → Nat} {s : St} (h : TInv now born s) (id : Nat) : TInv now born (removeRequest s id).1 := by
   unfold Server.removeRequest
   split
   · exact h
@@ -175,21 +265,12 @@ theorem TInv.removeReq {now : Nat} {s : St} (h : TInv now s) (id : Nat) : TInv n
     unfold removeTimer
     simp only [hr]
     subst hid
-    exact h.removeCore hen (DelayQ.remove_WF hr h.wf) (DelayQ.remove_Sound hr h.sound)
-      (DelayQ.remove_some hr).2 rfl (ExecsSim.refl _)
-
-/-- `removeRequest` never panics in a state satisfying the invariant -/
-theorem TInv.removeReq_obs {now : Nat} {s : St} (h : TInv now s) (id : Nat) : (removeRequest s id).1.obs = s.obs ∧
-    (removeRequest s id).1.poisoned = s.poisoned := by
-  unfold Server.removeRequest
-  split
-  · exact ⟨rfl, rfl⟩
-  · next e hf =>
-    obtain ⟨hen, hid⟩ := findEntry_some hf
-    obtain ⟨q', w, hr⟩ := h.remove_some hen
-    unfold removeTimer
-    rw [hr]
-    exact ⟨rfl, rfl⟩
+    have hcore : TInv now born { s with inflight := s.inflight.filter (·.id != e.id), timers := q' } :=
+      h.removeCore hen (DelayQ.remove_WF hr h.wf) (DelayQ.remove_Sound hr h.sound)
+        (DelayQ.remove_some hr).2 rfl (ExecsSim.refl _)
+    split
+    · exact hcore.of_sim (wakeServer_inflight _) (wakeServer_timers _) (by rw [wakeServer_execs]; exact ExecsSim.refl _)
+    · exact hcore
 
 /-! ### how the execution list changes -/
 
@@ -251,7 +332,7 @@ theorem abortExec_ab (s : St) (r : Nat) : ExecsAb (some r) s.execs (abortExec s 
     · exact ExecsAb.trans_none hu (wakeExec_ab _ r)
     · exact hu
 
-theorem TInv.cancelReq {now : Nat} {s : St} (h : TInv now s) (id : Nat) : TInv now (cancelRequest s id).1 := by
+theorem TInv.cancelReq {now : Nat} {born : Nat → Nat} {s : St} (h : TInv now born s) (id : Nat) : TInv now born (cancelRequest s id).1 := by
   unfold cancelRequest
   split
   · exact h
@@ -261,9 +342,13 @@ theorem TInv.cancelReq {now : Nat} {s : St} (h : TInv now s) (id : Nat) : TInv n
     unfold removeTimer
     simp only [abortExec_timers, hr]
     subst hid
-    refine h.removeCore hen (DelayQ.remove_WF hr h.wf) (DelayQ.remove_Sound hr h.sound)
-      (DelayQ.remove_some hr).2 (by simp) ?_
-    exact (abortExec_ab { s with inflight := s.inflight.filter (·.id != e.id) } e.rid).sim
+    have hcore : TInv now born { abortExec { s with inflight := s.inflight.filter (·.id != e.id) } e.rid with timers := q' } := by
+      refine h.removeCore hen (DelayQ.remove_WF hr h.wf) (DelayQ.remove_Sound hr h.sound)
+        (DelayQ.remove_some hr).2 (by simp) ?_
+      exact (abortExec_ab { s with inflight := s.inflight.filter (·.id != e.id) } e.rid).sim
+    split
+    · exact hcore.of_sim (wakeServer_inflight _) (wakeServer_timers _) (by rw [wakeServer_execs]; exact ExecsSim.refl _)
+    · exact hcore
 
 /-- … and what it did to the executions -/
 theorem cancelRequest_ab (s : St) (id : Nat) :
@@ -277,7 +362,7 @@ theorem cancelRequest_ab (s : St) (id : Nat) :
     simp only [removeTimer_execs]
     exact abortExec_ab { s with inflight := s.inflight.filter (·.id != id) } e.rid
 
-theorem TInv.expire {now : Nat} {s : St} (h : TInv now s) : TInv now (pollExpired s now).1 := by
+theorem TInv.expire {now : Nat} {born : Nat → Nat} {s : St} (h : TInv now born s) : TInv now born (pollExpired s now).1 := by
   unfold pollExpired
   split
   · exact h
@@ -307,18 +392,20 @@ theorem TInv.expire {now : Nat} {s : St} (h : TInv now s) : TInv now (pollExpire
     | none =>
       have hcs := DelayQ.pollExpired_other hp h.wf (by intro e h; cases h)
       exact ⟨hwf, hs, h.ids, fun en hen => by obtain ⟨c, hc, a, b⟩ := h.fwd en hen; exact ⟨c, (hcs c).mpr hc, a, b⟩,
-        fun c hc => h.bwd c ((hcs c).mp hc), h.ridLt, h.execRid,
+        fun c hc => h.bwd c ((hcs c).mp hc), h.ridLt, h.execRid, h.fresh,
         fun en hen c hc => h.dl en hen c ((hcs c).mp hc)⟩
     | pending =>
       have hcs := DelayQ.pollExpired_other hp h.wf (by intro e h; cases h)
       exact ⟨hwf, hs, h.ids, fun en hen => by obtain ⟨c, hc, a, b⟩ := h.fwd en hen; exact ⟨c, (hcs c).mpr hc, a, b⟩,
-        fun c hc => h.bwd c ((hcs c).mp hc), h.ridLt, h.execRid,
+        fun c hc => h.bwd c ((hcs c).mp hc), h.ridLt, h.execRid, h.fresh,
         fun en hen c hc => h.dl en hen c ((hcs c).mp hc)⟩
 
-/-- the expiry path aborts only executions whose deadline has passed (never early) -/
-theorem TInv.expire_ab {now : Nat} {s : St} (h : TInv now s) :
+/-- the expiry path aborts only executions whose deadline has passed (never early) — or whose timer
+was armed with the clamped timeout, which has run out -/
+theorem TInv.expire_ab {now : Nat} {born : Nat → Nat} {s : St} (h : TInv now born s) :
     ExecsAb none s.execs (pollExpired s now).1.execs ∨
-    ∃ r, ExecsAb (some r) s.execs (pollExpired s now).1.execs ∧ ∀ ex ∈ s.execs, ex.rid = r → ex.deadline ≤ now := by
+    ∃ r, ExecsAb (some r) s.execs (pollExpired s now).1.execs ∧
+      ∀ ex ∈ s.execs, ex.rid = r → ex.deadline ≤ now ∨ Clamped (born ex.rid) ex.deadline now := by
   unfold pollExpired
   split
   · exact Or.inl (ExecsAb.refl _ _)
@@ -334,8 +421,10 @@ theorem TInv.expire_ab {now : Nat} {s : St} (h : TInv now s) :
         have : en = en0 := eq_of_map_nodup (·.id) h.ids hen hen0 (hid.trans hv.symm)
         subst this
         refine Or.inr ⟨en.rid, abortExec_ab _ en.rid, fun ex hex hr => ?_⟩
-        have := (h.dl en hen0 _ hcore hk.symm ex hex hr).1
-        exact Nat.le_trans this (DelayQ.pollExpired_not_early hp h.sound)
+        have hne := DelayQ.pollExpired_not_early hp h.sound
+        rcases (h.dl en hen0 _ hcore hk.symm ex hex hr).1 with this | this
+        · exact Or.inl (Nat.le_trans this hne)
+        · exact Or.inr (this.mono hne)
       · exact Or.inl (ExecsAb.refl _ _)
     | none => exact Or.inl (ExecsAb.refl _ _)
     | pending => exact Or.inl (ExecsAb.refl _ _)
@@ -343,24 +432,38 @@ theorem TInv.expire_ab {now : Nat} {s : St} (h : TInv now s) :
 theorem ceilMs_ge (x : Nat) : x ≤ ceilMs x * nsPerMs := by
   unfold ceilMs nsPerMs; omega
 
-theorem TInv.start {now : Nat} {s : St} (h : TInv now s) (id d : Nat) (tr : Trace) (b : Nat) :
-    TInv now (startRequest s now id d tr b).1 := by
+theorem TInv.start {now : Nat} {born : Nat → Nat} {s : St} (h : TInv now born s) (id d : Nat) (tr : Trace) (b : Nat) :
+    TInv now born (startRequest s now id d tr b).1 := by
   unfold startRequest
   split
   · exact h
   · next hf =>
     have hfn : findEntry s id = none := by cases hx : findEntry s id <;> simp_all
-    rcases hi : s.timers.insert now (d - now) id with ⟨q, r, w⟩
+    rcases hi : s.timers.insert now (clampTimeout (d - now)) id with ⟨q, r, w⟩
     cases r with
     | panic => exact h.of_sim rfl rfl (ExecsSim.refl _)
     | ok key =>
       simp only
+      have hw : TInv now born (if w = true then wakeServer s else s) := by
+        split
+        · exact h.of_sim (wakeServer_inflight s) (wakeServer_timers s) (by rw [wakeServer_execs]; exact ExecsSim.refl _)
+        · exact h
+      have hwi : (if w = true then wakeServer s else s).inflight = s.inflight := by split <;> simp
+      have hwe : (if w = true then wakeServer s else s).execs = s.execs := by split <;> simp
+      have hwf' : (if w = true then wakeServer s else s).nextFresh = s.nextFresh := by
+        split
+        · unfold wakeServer; split <;> rfl
+        · rfl
+      revert hw hwi hwe hwf'
+      generalize (if w = true then wakeServer s else s) = sw
+      intro hw hwi hwe hwf'
+      rw [hwi, hwe]
       obtain ⟨hkey, hnk, hcs⟩ := DelayQ.insert_ok hi
       have hwf := DelayQ.insert_WF hi h.wf
       have hs := DelayQ.insert_Sound hi h.sound
       have hfresh : ∀ c ∈ s.timers.cores, c.1 ≠ key := fun c hc hck => by
         have := DelayQ.cores_key_lt h.wf hc; omega
-      refine ⟨hwf, hs, ?_, ?_, ?_, ?_, ?_, ?_⟩
+      refine ⟨hwf, hs, ?_, ?_, ?_, ?_, ?_, ?_, ?_⟩
       · simp only [List.map_append, List.map_cons, List.map_nil]
         rw [List.nodup_append]
         refine ⟨h.ids, by simp, ?_⟩
@@ -391,6 +494,9 @@ theorem TInv.start {now : Nat} {s : St} (h : TInv now s) (id d : Nat) (tr : Trac
         rcases List.mem_append.mp hex with hex | hex
         · have := h.execRid ex hex; omega
         · simp only [List.mem_singleton] at hex; subst hex; simp
+      · intro rid hrid
+        simp only [List.length_append, List.length_cons, List.length_nil] at hrid
+        exact h.fresh rid (by omega)
       · intro en hen c hc hk ex hex hr
         rcases List.mem_append.mp hen with hen | hen
         · -- an old entry: its timer is old, its execution is old
@@ -408,22 +514,26 @@ theorem TInv.start {now : Nat} {s : St} (h : TInv now s) (id d : Nat) (tr : Trac
           exact h.dl en hen c hcold hk ex hexold hr
         · simp only [List.mem_singleton] at hen; subst hen
           simp only at hk hr ⊢
-          have hcnew : c = (key, id, max (ceilMs (now + (d - now))) s.timers.wheelElapsed) := by
+          have hcnew : c = (key, id, max (ceilMs (now + clampTimeout (d - now))) s.timers.wheelElapsed) := by
             rcases (hcs c).mp hc with hc | hc
             · exact absurd hk (hfresh c hc)
             · exact hc
-          have hexnew : ex.deadline = d ∧ ex.id = id := by
+          have hexnew : ex.deadline = d ∧ ex.id = id ∧ ex.rid = s.execs.length := by
             rcases List.mem_append.mp hex with hex | hex
             · have := h.execRid ex hex; omega
-            · simp only [List.mem_singleton] at hex; subst hex; exact ⟨rfl, rfl⟩
+            · simp only [List.mem_singleton] at hex; subst hex; exact ⟨rfl, rfl, rfl⟩
           subst hcnew
-          rw [hexnew.1, hexnew.2]
+          rw [hexnew.1, hexnew.2.1, hexnew.2.2, h.fresh _ (Nat.le_refl _)]
           refine ⟨?_, rfl⟩
-          show d ≤ max (ceilMs (now + (d - now))) s.timers.wheelElapsed * nsPerMs
-          have h1 := ceilMs_ge (now + (d - now))
-          have h2 : ceilMs (now + (d - now)) * nsPerMs ≤ max (ceilMs (now + (d - now))) s.timers.wheelElapsed * nsPerMs :=
+          show d ≤ max (ceilMs (now + clampTimeout (d - now))) s.timers.wheelElapsed * nsPerMs ∨
+            Clamped now d (max (ceilMs (now + clampTimeout (d - now))) s.timers.wheelElapsed * nsPerMs)
+          have h1 := ceilMs_ge (now + clampTimeout (d - now))
+          have h2 : ceilMs (now + clampTimeout (d - now)) * nsPerMs ≤
+              max (ceilMs (now + clampTimeout (d - now))) s.timers.wheelElapsed * nsPerMs :=
             Nat.mul_le_mul_right _ (Nat.le_max_left _ _)
-          omega
+          rcases clampTimeout_cases (d - now) with hc | ⟨hne, hlt, hc⟩
+          · left; omega
+          · right; rw [hc] at h1 h2 ⊢; exact ⟨hne, by omega, by omega⟩
 
 theorem foldl_abort_sim (es : List SEntry) (s : St) :
     ExecsSim s.execs (es.foldl (fun s e => abortExec s e.rid) s).execs := by
@@ -436,7 +546,7 @@ theorem foldl_wake_sim (ws : List Nat) (s : St) : ExecsSim s.execs (ws.foldl wak
   | nil => exact ExecsSim.refl _
   | cons e es ih => exact ExecsSim.trans (wakeExec_ab s e).sim (ih _)
 
-theorem TInv.drop {now : Nat} {s : St} (h : TInv now s) : TInv now (dropServer s) := by
+theorem TInv.drop {now : Nat} {born : Nat → Nat} {s : St} (h : TInv now born s) : TInv now born (dropServer s) := by
   unfold dropServer
   split
   · exact h.of_sim rfl rfl (ExecsSim.refl _)
@@ -445,24 +555,32 @@ theorem TInv.drop {now : Nat} {s : St} (h : TInv now s) : TInv now (dropServer s
         { List.foldl (fun s e => abortExec s e.rid) { s with dropped := true, woken := false } s.inflight with rqWaiters := [] }
         (List.foldl (fun s e => abortExec s e.rid) { s with dropped := true, woken := false } s.inflight).rqWaiters).execs :=
       ExecsSim.trans (foldl_abort_sim s.inflight { s with dropped := true, woken := false }) (foldl_wake_sim _ _)
-    refine ⟨DelayQ.WF_empty, DelayQ.Sound_empty now, by simp, by simp, by simp [DelayQ.cores, DelayQ.items], by simp, ?_, by simp⟩
-    intro ex' hex'
-    obtain ⟨ex, hex, hr, _, _⟩ := hsim.2 ex' hex'
-    rw [hsim.1, hr]; exact h.execRid ex hex
+    refine ⟨DelayQ.WF_empty, DelayQ.Sound_empty now, by simp, by simp, by simp [DelayQ.cores, DelayQ.items], by simp, ?_, ?_, by simp⟩
+    · intro ex' hex'
+      obtain ⟨ex, hex, hr, _, _⟩ := hsim.2 ex' hex'
+      rw [hsim.1, hr]; exact h.execRid ex hex
+    · rw [hsim.1]; exact h.fresh
 
 /-! ### observation bookkeeping: what a step may add -/
 
 def insertPanicMsg : String := "DelayQueue::insert: invalid deadline"
 
-/-- `s'.obs` extends `s.obs` and the only panic it may add is the `DelayQueue` range panic -/
-def ObsExt (s s' : St) : Prop :=
-  ∃ new, s'.obs = new ++ s.obs ∧ ∀ o ∈ new, ∀ ep m, o = Obs.panic ep m → m = insertPanicMsg
+/-- what may be said of a panic observed at clock `now`: it is the `DelayQueue` range panic, and — the
+armed timeouts being clamped — it does not happen before `panicFreeNs` -/
+def PanicOk (now : Nat) (m : String) : Prop := m = insertPanicMsg ∧ (ClampFits → panicFreeNs ≤ now)
 
-theorem ObsExt.refl (s : St) : ObsExt s s := ⟨[], rfl, fun o h => by cases h⟩
+theorem PanicOk.mono {now now' : Nat} {m : String} (h : PanicOk now m) (hle : now ≤ now') : PanicOk now' m :=
+  ⟨h.1, fun hf => Nat.le_trans (h.2 hf) hle⟩
 
-theorem ObsExt.of_eq {s s' : St} (h : s'.obs = s.obs) : ObsExt s s' := ⟨[], by simpa using h, fun o h => by cases h⟩
+/-- `s'.obs` extends `s.obs` and the only panic it may add is the (late) `DelayQueue` range panic -/
+def ObsExt (now : Nat) (s s' : St) : Prop :=
+  ∃ new, s'.obs = new ++ s.obs ∧ ∀ o ∈ new, ∀ ep m, o = Obs.panic ep m → PanicOk now m
 
-theorem ObsExt.trans {a b c : St} (h1 : ObsExt a b) (h2 : ObsExt b c) : ObsExt a c := by
+theorem ObsExt.refl {now : Nat} (s : St) : ObsExt now s s := ⟨[], rfl, fun o h => by cases h⟩
+
+theorem ObsExt.of_eq {now : Nat} {s s' : St} (h : s'.obs = s.obs) : ObsExt now s s' := ⟨[], by simpa using h, fun o h => by cases h⟩
+
+theorem ObsExt.trans {now : Nat} {a b c : St} (h1 : ObsExt now a b) (h2 : ObsExt now b c) : ObsExt now a c := by
   obtain ⟨n1, e1, p1⟩ := h1
   obtain ⟨n2, e2, p2⟩ := h2
   refine ⟨n2 ++ n1, by rw [e2, e1, List.append_assoc], fun o ho => ?_⟩
@@ -470,36 +588,36 @@ theorem ObsExt.trans {a b c : St} (h1 : ObsExt a b) (h2 : ObsExt b c) : ObsExt a
   · exact p2 o h
   · exact p1 o h
 
-theorem ObsExt.emit (s : St) (o : Obs) (ho : ∀ ep m, o = Obs.panic ep m → m = insertPanicMsg) : ObsExt s (emit s o) :=
+theorem ObsExt.emit {now : Nat} (s : St) (o : Obs) (ho : ∀ ep m, o = Obs.panic ep m → PanicOk now m) : ObsExt now s (emit s o) :=
   ⟨[o], rfl, fun o' h => by simp only [List.mem_singleton] at h; subst h; exact ho⟩
 
-theorem ObsExt.mem {s s' : St} (h : ObsExt s s') {o : Obs} (ho : o ∈ s.obs) : o ∈ s'.obs := by
+theorem ObsExt.mem {now : Nat} {s s' : St} (h : ObsExt now s s') {o : Obs} (ho : o ∈ s.obs) : o ∈ s'.obs := by
   obtain ⟨n, e, _⟩ := h; rw [e]; exact List.mem_append.mpr (Or.inr ho)
 
-theorem ObsExt.hasSpin {s s' : St} (h : ObsExt s s') (hs : hasSpin s.obs = true) : hasSpin s'.obs = true := by
+theorem ObsExt.hasSpin {now : Nat} {s s' : St} (h : ObsExt now s s') (hs : hasSpin s.obs = true) : hasSpin s'.obs = true := by
   obtain ⟨n, e, _⟩ := h; rw [e]; unfold Flow.hasSpin at *; simp [hs]
 
-theorem obsExt_wakeExec (s : St) (r : Nat) : ObsExt s (wakeExec s r) := by
+theorem obsExt_wakeExec {now : Nat} (s : St) (r : Nat) : ObsExt now s (wakeExec s r) := by
   unfold wakeExec; repeat' split
   all_goals first | exact ObsExt.refl _ | exact ObsExt.trans (ObsExt.of_eq rfl) (ObsExt.emit _ _ (by intro _ _ h; cases h))
 
-theorem obsExt_abortExec (s : St) (r : Nat) : ObsExt s (abortExec s r) := by
+theorem obsExt_abortExec {now : Nat} (s : St) (r : Nat) : ObsExt now s (abortExec s r) := by
   unfold abortExec; repeat' split
   · exact ObsExt.refl _
   · exact ObsExt.trans (ObsExt.of_eq rfl) (obsExt_wakeExec _ r)
   · exact ObsExt.of_eq rfl
 
-theorem obsExt_foldl_abort (es : List SEntry) (s : St) : ObsExt s (es.foldl (fun s e => abortExec s e.rid) s) := by
+theorem obsExt_foldl_abort {now : Nat} (es : List SEntry) (s : St) : ObsExt now s (es.foldl (fun s e => abortExec s e.rid) s) := by
   induction es generalizing s with
   | nil => exact ObsExt.refl _
   | cons e es ih => exact ObsExt.trans (obsExt_abortExec s e.rid) (ih _)
 
-theorem obsExt_foldl_wake (ws : List Nat) (s : St) : ObsExt s (ws.foldl wakeExec s) := by
+theorem obsExt_foldl_wake {now : Nat} (ws : List Nat) (s : St) : ObsExt now s (ws.foldl wakeExec s) := by
   induction ws generalizing s with
   | nil => exact ObsExt.refl _
   | cons e es ih => exact ObsExt.trans (obsExt_wakeExec s e) (ih _)
 
-theorem obsExt_dropServer (s : St) : ObsExt s (dropServer s) := by
+theorem obsExt_dropServer {now : Nat} (s : St) : ObsExt now s (dropServer s) := by
   unfold dropServer; split
   · exact ObsExt.emit _ _ (by intro _ _ h; cases h)
   · simp only
@@ -508,7 +626,7 @@ theorem obsExt_dropServer (s : St) : ObsExt s (dropServer s) := by
     refine ObsExt.trans ?_ (ObsExt.of_eq rfl)
     exact ObsExt.trans (ObsExt.of_eq (s' := { s with dropped := true, woken := false }) rfl) (obsExt_foldl_abort _ _)
 
-theorem obsExt_pollExpired (s : St) (now : Nat) : ObsExt s (pollExpired s now).1 := by
+theorem obsExt_pollExpired {t : Nat} (s : St) (now : Nat) : ObsExt t s (pollExpired s now).1 := by
   unfold pollExpired; split
   · exact ObsExt.refl _
   · split
@@ -518,15 +636,45 @@ theorem obsExt_pollExpired (s : St) (now : Nat) : ObsExt s (pollExpired s now).1
     · exact ObsExt.of_eq rfl
     · exact ObsExt.of_eq rfl
 
+theorem obsExt_wakeServer {now : Nat} (s : St) : ObsExt now s (wakeServer s) := by
+  unfold wakeServer; split
+  · exact ObsExt.refl _
+  · exact ObsExt.trans (ObsExt.of_eq (s' := { s with woken := true }) rfl) (ObsExt.emit _ _ (by intro _ _ h; cases h))
+
 theorem obsExt_startRequest (s : St) (now id d : Nat) (tr : Trace) (b : Nat) :
-    ObsExt s (startRequest s now id d tr b).1 := by
+    ObsExt now s (startRequest s now id d tr b).1 := by
   unfold startRequest; split
   · exact ObsExt.refl _
-  · split
-    · exact ObsExt.trans (ObsExt.of_eq rfl) (ObsExt.emit _ _ (by intro _ _ h; cases h; rfl))
-    · exact ObsExt.of_eq rfl
+  · rcases hi : s.timers.insert now (clampTimeout (d - now)) id with ⟨q, r, w⟩
+    cases r with
+    | panic =>
+      refine ObsExt.trans (ObsExt.of_eq (s' := { s with poisoned := true }) rfl) (ObsExt.emit _ _ ?_)
+      intro _ _ h; cases h
+      exact ⟨rfl, fun hf => insert_panic_late hf s.timers now (d - now) id (by rw [hi])⟩
+    | ok key =>
+      simp only
+      split
+      · exact ObsExt.trans (obsExt_wakeServer s) (ObsExt.of_eq rfl)
+      · exact ObsExt.of_eq rfl
 
-theorem TInv.obsExt_cancelReq {now : Nat} {s : St} (h : TInv now s) (id : Nat) : ObsExt s (cancelRequest s id).1 := by
+/-- `removeRequest` never panics in a state satisfying the invariant -/
+theorem TInv.removeReq_obs {now : Nat} {born : Nat → Nat} {s : St} (h : TInv now born s) (id : Nat) :
+    ObsExt now s (removeRequest s id).1 ∧ (removeRequest s id).1.poisoned = s.poisoned := by
+  unfold Server.removeRequest
+  split
+  · exact ⟨ObsExt.refl _, rfl⟩
+  · next e hf =>
+    obtain ⟨hen, hid⟩ := findEntry_some hf
+    obtain ⟨q', w, hr⟩ := h.remove_some hen
+    unfold removeTimer
+    rw [hr]
+    simp only
+    split
+    · exact ⟨ObsExt.trans (ObsExt.of_eq (s' := { s with inflight := s.inflight.filter (·.id != id), timers := q' }) rfl)
+        (obsExt_wakeServer _), by simp⟩
+    · exact ⟨ObsExt.of_eq rfl, rfl⟩
+
+theorem TInv.obsExt_cancelReq {now : Nat} {born : Nat → Nat} {s : St} (h : TInv now born s) (id : Nat) : ObsExt now s (cancelRequest s id).1 := by
   unfold cancelRequest; split
   · exact ObsExt.refl _
   · next e hf =>
@@ -534,12 +682,16 @@ theorem TInv.obsExt_cancelReq {now : Nat} {s : St} (h : TInv now s) (id : Nat) :
     obtain ⟨q', w, hr⟩ := h.remove_some hen
     unfold removeTimer
     simp only [abortExec_timers, hr]
-    have h1 : ObsExt s (abortExec { s with inflight := s.inflight.filter (·.id != id) } e.rid) :=
+    have h1 : ObsExt now s (abortExec { s with inflight := s.inflight.filter (·.id != id) } e.rid) :=
       ObsExt.trans (ObsExt.of_eq (s' := { s with inflight := s.inflight.filter (·.id != id) }) rfl)
         (obsExt_abortExec _ _)
-    exact ObsExt.trans h1 (ObsExt.of_eq rfl)
+    refine ObsExt.trans h1 ?_
+    split
+    · exact ObsExt.trans (ObsExt.of_eq (s' := { abortExec { s with inflight := s.inflight.filter (·.id != id) } e.rid with timers := q' }) rfl)
+        (obsExt_wakeServer _)
+    · exact ObsExt.of_eq rfl
 
-theorem obsExt_tNext (s : St) : ObsExt s (tNext s).1 := by
+theorem obsExt_tNext {now : Nat} (s : St) : ObsExt now s (tNext s).1 := by
   unfold tNext; split
   · exact ObsExt.refl _
   · simp only; split
@@ -556,44 +708,85 @@ theorem tNext_item_obs {s : St} {m : Msg} (h : (tNext s).2 = .item m) :
     rw [h]
     simp [emit]
 
+/-- the execution list after `startRequest`: unchanged, or one fresh (un-aborted) execution appended -/
+theorem startRequest_execs_cases (s : St) (now id d : Nat) (tr : Trace) (b : Nat) :
+    (startRequest s now id d tr b).1.execs = s.execs ∨
+    ∃ e, (startRequest s now id d tr b).1.execs = s.execs ++ [e] ∧ e.aborted = false := by
+  unfold startRequest; split
+  · exact Or.inl rfl
+  · rcases hi : s.timers.insert now (clampTimeout (d - now)) id with ⟨q, r, w⟩
+    cases r with
+    | panic => exact Or.inl rfl
+    | ok key =>
+      simp only
+      have hwe : (if w = true then wakeServer s else s).execs = s.execs := by split <;> simp
+      revert hwe
+      generalize (if w = true then wakeServer s else s) = sw
+      intro hwe
+      let e0 : Exec := { rid := sw.execs.length, id := id, deadline := d, trace := { tr with span := .fresh sw.nextFresh }, body := b, guardArmed := false }
+      refine Or.inr ⟨e0, ?_, rfl⟩
+      show sw.execs ++ [e0] = s.execs ++ [e0]
+      rw [hwe]
+
 /-! ### the full server invariant -/
 
 /-- a `Cancel` for request id `id` was read from the transport -/
 def cancelSeen (id : Nat) (obs : List Obs) : Prop := ∃ ep tr, Obs.tNext ep (.item (.cancel id tr)) ∈ obs
 
 /-- Why an execution may be found aborted (C06 "never early"): the model spun (and stopped
-recording), a `Cancel` for its id was read, the request stream was dropped, or its deadline passed. -/
-def AbortWhy (now : Nat) (s : St) : Prop :=
+recording), a `Cancel` for its id was read, the request stream was dropped, its deadline passed — or
+its timer was armed with the clamped timeout (deadline more than the clamp away when the request was
+read at `born rid`) and the clamp has run out. -/
+def AbortWhy (now : Nat) (born : Nat → Nat) (s : St) : Prop :=
   ∀ ex ∈ s.execs, ex.aborted = true →
     hasSpin s.obs = true ∨ cancelSeen ex.id s.obs ∨ s.dropped = true ∨ ex.deadline ≤ now
+      ∨ Clamped (born ex.rid) ex.deadline now
 
-/-- the only panic ever observed is the `DelayQueue` range panic -/
-def OnlyInsertPanic (s : St) : Prop := ∀ ep m, Obs.panic ep m ∈ s.obs → m = insertPanicMsg
+/-- the only panic ever observed is the `DelayQueue` range panic, and not before `panicFreeNs` -/
+def OnlyInsertPanic (now : Nat) (s : St) : Prop := ∀ ep m, Obs.panic ep m ∈ s.obs → PanicOk now m
 
-structure SInv (now : Nat) (s : St) : Prop where
-  t : TInv now s
-  why : AbortWhy now s
-  panics : OnlyInsertPanic s
+/-- The server invariant.  `w = true`: with the abort-reason clause (which reads the observations
+recorded in the state); `w = false`: without it — that form survives clearing the observations, as the
+event trace (`stepOp`) does after every op. -/
+structure SInv (w : Bool) (now : Nat) (born : Nat → Nat) (s : St) : Prop where
+  t : TInv now born s
+  why : w = true → AbortWhy now born s
+  panics : OnlyInsertPanic now s
 
-theorem SInv.mono {now now' : Nat} {s : St} (h : SInv now s) (hle : now ≤ now') : SInv now' s :=
-  ⟨h.t.mono hle, fun ex hex ha => by
-    rcases h.why ex hex ha with h1 | h1 | h1 | h1
+theorem AbortWhy.redate {now : Nat} {born : Nat → Nat} {s : St} (h : AbortWhy now born s)
+    (hr : ∀ ex ∈ s.execs, ex.rid < s.execs.length) (t : Nat) : AbortWhy now (reborn born s.execs.length t) s := by
+  intro ex hex ha
+  have : reborn born s.execs.length t ex.rid = born ex.rid := by
+    unfold reborn; rw [if_pos (hr ex hex)]
+  rw [this]; exact h ex hex ha
+
+theorem SInv.mono {w : Bool} {now now' : Nat} {born : Nat → Nat} {s : St} (h : SInv w now born s) (hle : now ≤ now') :
+    SInv w now' (reborn born s.execs.length now') s :=
+  ⟨h.t.mono hle, fun hw ex hex ha => by
+    rcases (h.why hw).redate h.t.execRid now' ex hex ha with h1 | h1 | h1 | h1 | h1
     · exact Or.inl h1
     · exact Or.inr (Or.inl h1)
     · exact Or.inr (Or.inr (Or.inl h1))
-    · exact Or.inr (Or.inr (Or.inr (Nat.le_trans h1 hle))), h.panics⟩
+    · exact Or.inr (Or.inr (Or.inr (Or.inl (Nat.le_trans h1 hle))))
+    · exact Or.inr (Or.inr (Or.inr (Or.inr (h1.mono hle)))), fun ep m hm => (h.panics ep m hm).mono hle⟩
+
+/-- the invariant without the abort-reason clause does not look at the recorded observations -/
+theorem SInv.clear_obs {w : Bool} {now : Nat} {born : Nat → Nat} {s : St} (h : SInv w now born s) :
+    SInv false now born { s with obs := [] } :=
+  ⟨h.t.of_sim rfl rfl (ExecsSim.refl _), (fun hw => by cases hw), (by intro ep m hm; cases hm)⟩
 
 /-- the generic step: the table invariant is re-established, observations only grow (benignly), and
 every newly aborted execution has a reason -/
-theorem SInv.step {now : Nat} {s s' : St} (h : SInv now s) (ht : TInv now s') (hobs : ObsExt s s')
+theorem SInv.step {w : Bool} {now : Nat} {born : Nat → Nat} {s s' : St} (h : SInv w now born s) (ht : TInv now born s') (hobs : ObsExt now s s')
     (hdrop : s.dropped = true → s'.dropped = true) (r : Option Nat) (hab : ExecsAb r s.execs s'.execs)
     (hr : ∀ ex ∈ s.execs, r = some ex.rid →
-      hasSpin s'.obs = true ∨ cancelSeen ex.id s'.obs ∨ s'.dropped = true ∨ ex.deadline ≤ now) : SInv now s' := by
-  refine ⟨ht, fun ex' hex' ha' => ?_, fun ep m hm => ?_⟩
-  · obtain ⟨ex, hex, _, hid, hd, hab'⟩ := hab.2 ex' hex'
-    rw [hid, hd]
+      hasSpin s'.obs = true ∨ cancelSeen ex.id s'.obs ∨ s'.dropped = true ∨ ex.deadline ≤ now
+        ∨ Clamped (born ex.rid) ex.deadline now) : SInv w now born s' := by
+  refine ⟨ht, fun hw ex' hex' ha' => ?_, fun ep m hm => ?_⟩
+  · obtain ⟨ex, hex, hrid, hid, hd, hab'⟩ := hab.2 ex' hex'
+    rw [hid, hd, hrid]
     rcases hab' ha' with ha | ha
-    · rcases h.why ex hex ha with h1 | h1 | h1 | h1
+    · rcases h.why hw ex hex ha with h1 | h1 | h1 | h1
       · exact Or.inl (hobs.hasSpin h1)
       · obtain ⟨ep, tr, hm⟩ := h1
         exact Or.inr (Or.inl ⟨ep, tr, hobs.mem hm⟩)
@@ -606,12 +799,12 @@ theorem SInv.step {now : Nat} {s s' : St} (h : SInv now s) (ht : TInv now s') (h
     · exact p _ hm ep m rfl
     · exact h.panics ep m hm
 
-theorem TInv.timerWaker {now : Nat} {s : St} (h : TInv now s) (b : Bool) :
-    TInv now { s with timers := { s.timers with waker := b } } :=
+theorem TInv.timerWaker {now : Nat} {born : Nat → Nat} {s : St} (h : TInv now born s) (b : Bool) :
+    TInv now born { s with timers := { s.timers with waker := b } } :=
   ⟨⟨h.wf.nodup, h.wf.lt⟩, ⟨h.sound.lvl, h.sound.blk, h.sound.top, h.sound.exp, h.sound.el, h.sound.wn⟩,
-    h.ids, h.fwd, h.bwd, h.ridLt, h.execRid, h.dl⟩
+    h.ids, h.fwd, h.bwd, h.ridLt, h.execRid, h.fresh, h.dl⟩
 
-theorem sinv_closed (now : Nat) : PrimClosed now (SInv now) where
+theorem sinv_closed (w : Bool) (now : Nat) (born : Nat → Nat) : PrimClosed now (SInv w now born) where
   inert := fun s s' hi h =>
     h.step (h.t.of_sim hi.inflight hi.timers (by rw [hi.execs]; exact ExecsSim.refl _)) (ObsExt.of_eq hi.obs)
       (fun hd => by rw [hi.dropped]; exact hd) none (by rw [hi.execs]; exact ExecsAb.refl _ _)
@@ -627,10 +820,10 @@ theorem sinv_closed (now : Nat) : PrimClosed now (SInv now) where
   setFused := fun s h =>
     h.step (h.t.of_sim rfl rfl (ExecsSim.refl _)) (ObsExt.of_eq rfl) id none (ExecsAb.refl _ _) (fun _ _ hr => by cases hr)
   removeReq := fun s id h =>
-    h.step (h.t.removeReq id) (ObsExt.of_eq (h.t.removeReq_obs id).1) (by simp) none
+    h.step (h.t.removeReq id) (h.t.removeReq_obs id).1 (by simp) none
       (by rw [removeRequest_execs]; exact ExecsAb.refl _ _) (fun _ _ hr => by cases hr)
   cancel := fun s id tr h hnx => by
-    have h1 : SInv now (tNext s).1 :=
+    have h1 : SInv w now born (tNext s).1 :=
       h.step (h.t.of_sim (by simp) (by simp) (by rw [tNext_execs]; exact ExecsSim.refl _)) (obsExt_tNext s)
         (by simp) none (by rw [tNext_execs]; exact ExecsAb.refl _ _) (fun _ _ hr => by cases hr)
     have hseen : cancelSeen id (cancelRequest (tNext s).1 id).1.obs :=
@@ -651,18 +844,16 @@ theorem sinv_closed (now : Nat) : PrimClosed now (SInv now) where
         (fun ex hex hr => Or.inr (Or.inr (Or.inr (hdl ex hex (Option.some.inj hr).symm))))
   start := fun s id d tr b h => by
     refine ⟨h.t.start id d tr b, ?_, ?_⟩
-    · intro ex' hex' ha'
+    · intro hw ex' hex' ha'
       have hold : ex' ∈ s.execs := by
-        unfold startRequest at hex'
-        split at hex'
-        · exact hex'
-        · split at hex'
-          · exact hex'
-          · simp only [List.mem_append, List.mem_singleton] at hex'
-            rcases hex' with h' | h'
-            · exact h'
-            · subst h'; cases ha'
-      rcases h.why ex' hold ha' with h1 | h1 | h1 | h1
+        rcases startRequest_execs_cases s now id d tr b with he | ⟨e, he, hna⟩
+        · rw [he] at hex'; exact hex'
+        · rw [he] at hex'
+          simp only [List.mem_append, List.mem_singleton] at hex'
+          rcases hex' with h' | h'
+          · exact h'
+          · subst h'; rw [hna] at ha'; cases ha'
+      rcases h.why hw ex' hold ha' with h1 | h1 | h1 | h1
       · exact Or.inl ((obsExt_startRequest s now id d tr b).hasSpin h1)
       · obtain ⟨ep, tr', hm⟩ := h1
         exact Or.inr (Or.inl ⟨ep, tr', (obsExt_startRequest s now id d tr b).mem hm⟩)
@@ -679,7 +870,7 @@ theorem sinv_closed (now : Nat) : PrimClosed now (SInv now) where
     h.step (h.t.of_sim rfl rfl (ExecsSim.refl _)) (ObsExt.emit s _ (by intro _ _ ho; cases ho)) id none
       (ExecsAb.refl _ _) (fun _ _ hr => by cases hr)
   spunReset := fun s0 s h0 h =>
-    ⟨h.t.of_sim rfl rfl (ExecsSim.refl _), fun ex hex ha => Or.inl (by simp [hasSpin]),
+    ⟨h.t.of_sim rfl rfl (ExecsSim.refl _), fun _ ex hex ha => Or.inl (by simp [hasSpin]),
       fun ep m hm => by
         simp only [List.mem_cons] at hm
         rcases hm with hm | hm
@@ -689,15 +880,15 @@ theorem sinv_closed (now : Nat) : PrimClosed now (SInv now) where
     h.step (h.t.of_sim rfl rfl (ExecsSim.refl _)) (ObsExt.of_eq rfl) id none (ExecsAb.refl _ _) (fun _ _ hr => by cases hr)
   drop := fun s h => by
     refine ⟨h.t.drop, ?_, ?_⟩
-    · intro ex' hex' ha'
+    · intro hw ex' hex' ha'
       unfold dropServer at hex' ⊢
       split
       · next hc =>
         rw [if_pos hc] at hex'
-        rcases h.why ex' hex' ha' with h1 | h1 | h1 | h1
-        · exact Or.inl ((ObsExt.emit s .noop (by intro _ _ ho; cases ho)).hasSpin h1)
+        rcases h.why hw ex' hex' ha' with h1 | h1 | h1 | h1
+        · exact Or.inl ((ObsExt.emit (now := now) s .noop (by intro _ _ ho; cases ho)).hasSpin h1)
         · obtain ⟨ep, tr', hm⟩ := h1
-          exact Or.inr (Or.inl ⟨ep, tr', (ObsExt.emit s .noop (by intro _ _ ho; cases ho)).mem hm⟩)
+          exact Or.inr (Or.inl ⟨ep, tr', (ObsExt.emit (now := now) s .noop (by intro _ _ ho; cases ho)).mem hm⟩)
         · exact Or.inr (Or.inr (Or.inl h1))
         · exact Or.inr (Or.inr (Or.inr h1))
       · refine Or.inr (Or.inr (Or.inl ?_))
@@ -706,7 +897,7 @@ theorem sinv_closed (now : Nat) : PrimClosed now (SInv now) where
         simp only
         rw [foldl_abortExec_frame (fun s => St.dropped s) (by simp)]
     · intro ep m hm
-      obtain ⟨new, e, p⟩ := obsExt_dropServer s
+      obtain ⟨new, e, p⟩ := obsExt_dropServer (now := now) s
       rw [e] at hm
       rcases List.mem_append.mp hm with hm | hm
       · exact p _ hm ep m rfl
@@ -843,15 +1034,105 @@ theorem pollExpired_touches (s : St) (now : Nat) :
 
 /-! ### reachable states -/
 
-theorem sinv_init (limit : Option Nat) (respCap tcap : Nat) (coupled : Bool) :
-    SInv 0 (init 0 limit respCap tcap coupled) := by
-  refine ⟨⟨DelayQ.WF_empty, DelayQ.Sound_empty 0, ?_, ?_, ?_, ?_, ?_, ?_⟩, ?_, ?_⟩
+theorem sinv_init (w : Bool) (limit : Option Nat) (respCap tcap : Nat) (coupled : Bool) :
+    SInv w 0 (fun _ => 0) (init 0 limit respCap tcap coupled) := by
+  refine ⟨⟨DelayQ.WF_empty, DelayQ.Sound_empty 0, ?_, ?_, ?_, ?_, ?_, ?_, ?_⟩, ?_, ?_⟩
   all_goals simp [init, AbortWhy, OnlyInsertPanic, DelayQ.cores, DelayQ.items]
 
-theorem sinv_reach (limit : Option Nat) (respCap tcap : Nat) (coupled : Bool) (ops : List SOp) :
-    SInv (ops.foldl applyOp (initSys limit respCap tcap coupled)).now
-      (ops.foldl applyOp (initSys limit respCap tcap coupled)).s :=
-  reach_inv SInv sinv_closed (fun _ _ _ hle h => h.mono hle) _ (sinv_init limit respCap tcap coupled) ops
+/-- the virtual time an op advances the clock by -/
+def opAdv : SOp → Nat
+  | .advance n => n
+  | _ => 0
+
+/-- the total virtual time a script advances the clock by -/
+def advSum : List SOp → Nat
+  | [] => 0
+  | op :: ops => opAdv op + advSum ops
+
+theorem applyOp_now (c : Sys) (op : SOp) : (applyOp c op).now = c.now + opAdv op := by
+  cases op <;> rfl
+
+theorem foldl_applyOp_now (ops : List SOp) (c : Sys) : (ops.foldl applyOp c).now = c.now + advSum ops := by
+  induction ops generalizing c with
+  | nil => rfl
+  | cons op ops ih => rw [List.foldl_cons, ih, applyOp_now]; simp only [advSum]; omega
+
+theorem advSum_append (l1 l2 : List SOp) : advSum (l1 ++ l2) = advSum l1 + advSum l2 := by
+  induction l1 with
+  | nil => simp [advSum]
+  | cons op l1 ih => simp only [List.cons_append, advSum, ih]; omega
+
+theorem onAdvance_execs (s : St) (n : Nat) : (onAdvance s n).execs = s.execs := by
+  unfold onAdvance; repeat' split
+  all_goals first | rfl | simp
+
+/-- **Execution `rid` was created by the op that follows the prefix `ops1` of the script, at clock
+`t0`**: before that op the execution list was too short to contain it, after it it is not.
+(Executions are created by `start_request` only, i.e. when a poll of the request stream reads the
+request from the transport; `t0` is the clock of that poll, which the deadline timer is armed
+relative to.) -/
+def StartedAt (c0 : Sys) (ops : List SOp) (rid t0 : Nat) : Prop :=
+  ∃ ops1 op ops2, ops = ops1 ++ op :: ops2 ∧
+    (ops1.foldl applyOp c0).s.execs.length ≤ rid ∧
+    rid < (applyOp (ops1.foldl applyOp c0) op).s.execs.length ∧
+    (ops1.foldl applyOp c0).now = t0
+
+theorem StartedAt.cons {c0 : Sys} {op : SOp} {ops : List SOp} {rid t0 : Nat}
+    (h : StartedAt (applyOp c0 op) ops rid t0) : StartedAt c0 (op :: ops) rid t0 := by
+  obtain ⟨ops1, op', ops2, he, h1, h2, h3⟩ := h
+  exact ⟨op :: ops1, op', ops2, by rw [he]; rfl, h1, h2, h3⟩
+
+/-- one op: the invariant is kept, with the creation clocks of the existing executions unchanged and
+those of the executions the op creates set to the clock before the op -/
+theorem sinv_applyOp {w : Bool} {born : Nat → Nat} (c : Sys) (op : SOp) (h : SInv w c.now born c.s) :
+    ∃ born', SInv w (applyOp c op).now born' (applyOp c op).s ∧
+      (∀ rid, rid < c.s.execs.length → born' rid = born rid) ∧
+      (∀ rid, c.s.execs.length ≤ rid → rid < (applyOp c op).s.execs.length → born' rid = c.now) := by
+  by_cases hop : ∃ n, op = .advance n
+  · obtain ⟨n, rfl⟩ := hop
+    refine ⟨reborn born c.s.execs.length (c.now + n), ?_, ?_, ?_⟩
+    · exact (sinv_closed w _ _).onAdvance _ _ (h.mono (Nat.le_add_right _ _))
+    · intro rid hr; unfold reborn; rw [if_pos hr]
+    · intro rid h1 h2
+      simp only [applyOp, onAdvance_execs] at h2
+      omega
+  · have hnow : (applyOp c op).now = c.now := by
+      cases op <;> first | rfl | exact absurd ⟨_, rfl⟩ hop
+    refine ⟨born, ?_, fun _ _ => rfl, fun rid h1 _ => h.t.fresh rid h1⟩
+    rw [hnow]
+    exact (sinv_closed w c.now born).applyOp c op h (fun n hn => hop ⟨n, hn⟩)
+
+/-- **Reachable states, with the creation clocks tied to the script.** -/
+theorem sinv_reach_from {w : Bool} (ops : List SOp) : ∀ (c0 : Sys) (born0 : Nat → Nat), SInv w c0.now born0 c0.s →
+    ∃ born, SInv w (ops.foldl applyOp c0).now born (ops.foldl applyOp c0).s ∧
+      ∀ rid, rid < (ops.foldl applyOp c0).s.execs.length →
+        (rid < c0.s.execs.length ∧ born rid = born0 rid) ∨ StartedAt c0 ops rid (born rid) := by
+  induction ops with
+  | nil => intro c0 born0 h; exact ⟨born0, h, fun rid hr => Or.inl ⟨hr, rfl⟩⟩
+  | cons op ops ih =>
+    intro c0 born0 h
+    obtain ⟨born1, h1, hold, hnew⟩ := sinv_applyOp c0 op h
+    obtain ⟨born, hb, hlink⟩ := ih (applyOp c0 op) born1 h1
+    refine ⟨born, hb, fun rid hr => ?_⟩
+    rcases hlink rid hr with ⟨hlt, heq⟩ | hs
+    · by_cases h0 : rid < c0.s.execs.length
+      · exact Or.inl ⟨h0, heq.trans (hold rid h0)⟩
+      · right
+        refine ⟨[], op, ops, rfl, by simpa using h0, hlt, ?_⟩
+        rw [heq, hnew rid (by omega) hlt]; rfl
+    · exact Or.inr hs.cons
+
+theorem sinv_reach (w : Bool) (limit : Option Nat) (respCap tcap : Nat) (coupled : Bool) (ops : List SOp) :
+    ∃ born, SInv w (ops.foldl applyOp (initSys limit respCap tcap coupled)).now born
+        (ops.foldl applyOp (initSys limit respCap tcap coupled)).s ∧
+      ∀ rid, rid < (ops.foldl applyOp (initSys limit respCap tcap coupled)).s.execs.length →
+        StartedAt (initSys limit respCap tcap coupled) ops rid (born rid) := by
+  obtain ⟨born, h, hl⟩ := sinv_reach_from ops (initSys limit respCap tcap coupled) (fun _ => 0)
+    (sinv_init w limit respCap tcap coupled)
+  refine ⟨born, h, fun rid hr => ?_⟩
+  rcases hl rid hr with ⟨h0, _⟩ | h1
+  · exact absurd h0 (Nat.not_lt_zero _)
+  · exact h1
 
 theorem init_cfg (limit : Option Nat) (respCap tcap : Nat) (coupled : Bool) :
     (initSys limit respCap tcap coupled).s.throttleAfterRead = false ∧
@@ -958,11 +1239,15 @@ theorem pskFinish_frame (s : St) (r : ReqPoll) :
 
 theorem pollServer_eq (s : St) (now : Nat) :
     pollServer s now = if ((pollServerKeep s now).done.isSome && !(pollServerKeep s now).dropped) = true
-      then dropServer (pollServerKeep s now) else pollServerKeep s now := rfl
+      then dropServer (pollServerKeep s now)
+      else if (decide ((pollServerKeep s now).nextVis > s.nextVis) && !(pollServerKeep s now).dropped) = true
+        then { pollServerKeep s now with woken := true }
+      else pollServerKeep s now := rfl
 
 /-- what one `pollServer` does, for a live stream -/
 theorem pollServer_cases (s : St) (now : Nat) (hlive : (s.dropped || s.done.isSome || s.poisoned) = false) :
-    ((pollServerKeep s now).done = none ∧ pollServer s now = pollServerKeep s now) ∨
+    ((pollServerKeep s now).done = none ∧
+      (pollServer s now = pollServerKeep s now ∨ pollServer s now = { pollServerKeep s now with woken := true })) ∨
     ((pollServerKeep s now).done.isSome = true ∧ (pollServerKeep s now).dropped = false ∧
       (pollServerKeep s now).poisoned = false ∧ pollServer s now = dropServer (pollServerKeep s now)) := by
   have hl := hlive
@@ -971,7 +1256,11 @@ theorem pollServer_cases (s : St) (now : Nat) (hlive : (s.dropped || s.done.isSo
   rcases pollServerKeep_cases s now hlive with ⟨hp, hd, hdr⟩ | ⟨hp, heq⟩
   · left
     refine ⟨hd, ?_⟩
-    rw [hd]; rfl
+    rw [hd]
+    simp only [Option.isSome_none, Bool.false_and, Bool.false_eq_true, if_false]
+    split
+    · exact Or.inr rfl
+    · exact Or.inl rfl
   · have hdd := (dd_closed s.done s.dropped now).requestsPollNext (pollFuel { s with woken := false })
       { s with woken := false } ⟨rfl, rfl⟩
     have hfr := pskFinish_frame (requestsPollNext (pollFuel { s with woken := false }) { s with woken := false } now).1
@@ -980,7 +1269,13 @@ theorem pollServer_cases (s : St) (now : Nat) (hlive : (s.dropped || s.done.isSo
     have hkd : (pollServerKeep s now).dropped = false := by rw [hfr.1, hdd.2]; exact hl.1.1
     have hkp : (pollServerKeep s now).poisoned = false := by rw [hfr.2.1]; exact hp
     cases hdone : (pollServerKeep s now).done with
-    | none => left; exact ⟨rfl, rfl⟩
+    | none =>
+      left
+      refine ⟨rfl, ?_⟩
+      simp only [Option.isSome_none, Bool.false_and, Bool.false_eq_true, if_false]
+      split
+      · exact Or.inr rfl
+      · exact Or.inl rfl
     | some r => right; rw [hkd]; exact ⟨rfl, rfl, hkp, rfl⟩
 
 theorem DoneDropped_pollServer {s : St} (h : DoneDropped s) (now : Nat) : DoneDropped (pollServer s now) := by
@@ -993,10 +1288,13 @@ theorem DoneDropped_pollServer {s : St} (h : DoneDropped s) (now : Nat) : DoneDr
     · next hc =>
       simp only [Bool.and_eq_true, Bool.not_eq_true'] at hc
       rw [h hc.1] at hc; cases hc.2
-    · exact h
+    · split
+      · exact h
+      · exact h
   · have hl' : (s.dropped || s.done.isSome || s.poisoned) = false := by simpa using hl
-    rcases pollServer_cases s now hl' with ⟨hd, heq⟩ | ⟨hd, hdr, hp, heq⟩
+    rcases pollServer_cases s now hl' with ⟨hd, heq | heq⟩ | ⟨hd, hdr, hp, heq⟩
     · rw [heq]; intro hs; rw [hd] at hs; cases hs
+    · rw [heq]; intro hs; simp only [hd] at hs; cases hs
     · rw [heq]; intro _; exact dropServer_dropped _ (by simp [hdr, hp])
 
 theorem DoneDropped_applyOp (c : Sys) (op : SOp) (h : DoneDropped c.s) : DoneDropped (applyOp c op).s := by
